@@ -173,6 +173,15 @@ theorem one_clause_is_one_join {F : Facts} (hF : Facts.WF F = true) {gs : List Q
     (unres = true → joinClause (gs.flatMap scanOf) (nl lo.lower) (nl lo.upper) (absRows tbl) c = []) :=
   processClause_spec hF hg U ht hc.wf hc.consts hc.inU hfil hfirst (fun he hb => absurd (hc.noBareAliases he) hb) h
 
+/-- The reference the implementation is compared with also gives a meaning to object predicates bounded by
+    bindings (`?s ?p "id"@[?lo,?hi]`: the interval is read from the row, `solutionsO`); on the patterns of the
+    planner theorems above (no such aliases: `PatClause`) it is `solutions`. The pinned tree never read those
+    bounds (1eb6e97): the hypothesis `noObjAliases` of `ClauseWF` was taken for a guarantee of the parser, the
+    hooks model showed it is not, and the real code at the excluded point returned rows that are not solutions. -/
+theorem reference_extends_to_object_bounds (scan : List Triple) (glo ghi : Option Int) (cs : List Clause)
+    (h : ∀ c ∈ cs, c.oLowerAlias = [] ∧ c.oUpperAlias = []) : solutionsO scan glo ghi cs = solutions scan glo ghi cs :=
+  solutionsO_eq scan glo ghi cs h
+
 /-! ### Projected onto the selected bindings -/
 
 /-- The plain projection of the planner (`projectPlain`: for each row, read the cell of every projected
@@ -332,3 +341,4 @@ end BW.Props.C03
 #print axioms BW.Props.C03.select_list_means_its_tokens
 #print axioms BW.Props.C03.from_means_its_tokens
 #print axioms BW.Props.C03.global_bound_means_its_tokens
+#print axioms BW.Props.C03.reference_extends_to_object_bounds
